@@ -87,7 +87,7 @@ impl<'a> G<'a> {
         };
         let mut n = n;
         // occasionally far more distinct keys than any per-replica table is likely to expect
-        if self.cfg.focus == Focus::Agg && max >= 400 && self.rng.chance(1, 12) {
+        if self.cfg.focus == Focus::Agg && max >= 400 && self.rng.chance(1, 25) {
             keys = 30_000;
             n = 40_000;
         }
@@ -220,7 +220,7 @@ impl<'a> G<'a> {
         let mut size = in_size;
         for _ in 0..n {
             let fan = self.cfg.focus == Focus::Fan && size <= 300 && self.rng.chance(1, 3);
-            let join_focus = self.cfg.focus == Focus::Join && size <= 40 && self.rng.chance(1, 3);
+            let join_focus = !iterate && self.cfg.focus == Focus::Join && size <= 40 && self.rng.chance(1, 3);
             let op = match if fan { 11 } else if join_focus { 100 } else { self.rng.below(12) } {
                 100 => self.split_join(),
                 0 | 1 => UOp::Map { mul: self.rng.range(-2, 3), add: self.rng.range(-5, 5) },
@@ -232,7 +232,7 @@ impl<'a> G<'a> {
                 7 => self.keyed_agg_op(),
                 8 if !iterate => self.global_agg_op(),
                 9 => UOp::CountWindow { n: self.rng.usize(1, 4), s: 1, exact: self.rng.chance(1, 2), content: false },
-                10 if size <= 40 => self.split_join(),
+                10 if !iterate && size <= 40 => self.split_join(),
                 11 if size <= 300 => UOp::SplitZip { m: self.rng.range(2, 4), m2: self.rng.range(2, 4) },
                 10 if !iterate && depth == 0 && size <= 100 => {
                     let body = self.body(false, depth + 1, size);
